@@ -10,6 +10,7 @@ import json
 import logging
 import math
 import os
+import random
 from fractions import Fraction
 
 import numpy as np
@@ -1237,9 +1238,127 @@ def run_dv(case):
     return None, tags
 
 
+# ------------------------------------------------------------------------------------------------
+# sensors fetched on demand from the sensor store (katstore64 web API): the glue in front of the modelled core.
+# The reply of the store's pattern search may carry records of other sensors whose names contain the requested
+# one; the value read must be that of a cache holding the requested sensor's own records directly (which the
+# cases above tie to the model).
+
+_KS = {}
+
+
+def _ks_server():
+    if 'port' in _KS:
+        return _KS
+    import threading
+    from http.server import BaseHTTPRequestHandler, HTTPServer
+    from urllib.parse import parse_qs, urlparse
+
+    class H(BaseHTTPRequestHandler):
+        def do_GET(self):
+            q = parse_qs(urlparse(self.path).query)
+            pattern = q['sensor'][0]
+            lo, hi = float(q['start_time'][0]), float(q['end_time'][0])
+            _KS['queries'].append((pattern, lo, hi))
+            recs = []
+            for name, samples in _KS['store']:
+                if pattern in name:
+                    recs += [dict(sensor=name, sample_time=t + 0.125, value_time=t, value=v, status=st)
+                             for (t, v, st) in samples if lo <= t <= hi]
+            body = json.dumps(dict(data=recs)).encode()
+            self.send_response(200)
+            self.send_header('Content-Type', 'application/json')
+            self.send_header('Content-Length', str(len(body)))
+            self.end_headers()
+            self.wfile.write(body)
+
+        def log_message(self, *a):
+            pass
+    srv = HTTPServer(('127.0.0.1', 0), H)
+    threading.Thread(target=srv.serve_forever, daemon=True).start()
+    _KS.update(port=srv.server_address[1], store=[], queries=[])
+    os.environ['NO_PROXY'] = os.environ['no_proxy'] = '127.0.0.1,localhost'
+    return _KS
+
+
+KS_STATUS = ['nominal', 'warn', 'error', 'failure', 'unknown', 'unreachable', 'inactive']
+
+
+def gen_ks(rng):
+    return dict(kind='ks', seed=rng.randrange(2 ** 31), T=rng.randint(3, 10), others=rng.randint(0, 3),
+                order=rng.random() < 0.5, select=rng.random() < 0.6)
+
+
+def run_ks(case):
+    """-> (violation text or None, tags)"""
+    from katdal.sensordata import RecordSensorGetter, SensorCache
+    rng = random.Random(case['seed'])
+    tags = {'ks'}
+    ks = _ks_server()
+    T = case['T']
+    t0 = 1600000000.0
+    period = 8.0
+    dumps = t0 + period * np.arange(T)
+    name = 'anc_air_temperature'
+    other_names = rng.sample([name + '_limit', 'x_' + name, name + '2', 'site_' + name + '_max'], case['others'])
+
+    def samples():
+        n = rng.randint(1, 7)
+        ts = sorted(rng.sample([t0 - 40.0 + 4.0 * i for i in range(int((T * period + 80) / 4))], n))
+        return [(t, float(rng.randint(-40, 160)) / 4, rng.choice(KS_STATUS[:2] * 3 + KS_STATUS)) for t in ts]
+    own = samples()
+    store = [(name, own)] + [(o, samples()) for o in other_names]
+    if case['order']:
+        store.sort()
+    else:
+        store.sort(reverse=True)
+    ks['store'], ks['queries'] = store, []
+    keep = np.array([rng.random() < 0.7 for _ in range(T)]) if case['select'] else np.ones(T, dtype=bool)
+
+    def read(cache):
+        try:
+            return np.asarray(cache[name]), None
+        except Exception as e:   # noqa: BLE001
+            return None, type(e).__name__
+    got, gerr = read(SensorCache({}, dumps, period, keep=keep, store=f"127.0.0.1:{ks['port']}"))
+    lo, hi = dumps[0] - period - 600, dumps[-1] + period + 60
+    mine = [r for r in own if lo <= r[0] <= hi]
+    if other_names:
+        tags.add('ks-foreign-records')
+    if mine:
+        ref_getter = RecordSensorGetter(np.rec.fromrecords(mine, names='timestamp,value,status'), name)
+        exp, eerr = read(SensorCache({name: ref_getter}, dumps, period, keep=keep))
+    else:
+        exp, eerr = None, 'KeyError'
+        tags.add('ks-no-records')
+    if not any(st in ('nominal', 'warn', 'error') for _, _, st in mine):
+        tags.add('ks-all-unreadable')
+    if (gerr or eerr) and gerr != eerr:
+        return (f"sensor {name} fetched from the sensor store ({len(other_names)} other sensor(s) matching the pattern): "
+                f"{'raised ' + gerr if gerr else 'returned ' + str(got[:6].tolist())}; a cache holding the sensor's own "
+                f"{len(mine)} record(s) {'raises ' + eerr if eerr else 'gives ' + str(exp[:6].tolist())}"), tags
+    if gerr is None and (got.shape != exp.shape or not np.array_equal(got, exp, equal_nan=True)):
+        return (f"sensor {name} fetched from the sensor store ({len(other_names)} other sensor(s) matching the pattern, "
+                f"{other_names}) reads {got[:8].tolist()}; a cache holding the sensor's own {len(mine)} record(s) reads "
+                f"{exp[:8].tolist()}"), tags
+    return None, tags
+
+
 def eval_dv(ctx, cases):
     bad = []
     for c in cases:
+        if c['kind'] == 'ks':
+            logging.disable(logging.CRITICAL)
+            try:
+                v, tags = run_ks(c)
+            finally:
+                logging.disable(logging.NOTSET)
+            if ctx is not None:
+                ctx.tag(*sorted(tags))
+                ctx.count(('ks', c['seed']), True, sample={'ks': c['seed'], 'T': c['T'], 'others': c['others']})
+            if v:
+                bad.append((c, v))
+            continue
         v, tags = run_dv(c)
         if ctx is not None:
             ctx.tag(*sorted(tags))
@@ -1269,6 +1388,13 @@ def fails_like(case, what):
 
 
 def shrink(case, what):
+    if case['kind'] == 'ks':
+        for others in range(0, case['others']):
+            cand = dict(case, others=others)
+            v, _ = run_ks(cand)
+            if v:
+                return cand, v
+        return case, what
     if case['kind'] == 'dv':
         cur = copy.deepcopy(case)
         for n in range(1, len(cur['order']) + 1):
@@ -1398,13 +1524,14 @@ def run(ctx):
     n_clean = ctx.q(700, 20000)
     glue_interp(ctx, ctx.q(100, 2000))
     corpus = corpus_cases()
-    cases = [c for c in corpus if c.get('kind') != 'dv']
+    cases = [c for c in corpus if c.get('kind') not in ('dv', 'ks')]
     cases += [gen_single(ctx.rng) for _ in range(n_single)]
     cases += [gen_concat(ctx.rng) for _ in range(n_concat)]
     cases += [gen_clean_case(ctx.rng) for _ in range(n_clean)]
     bad = evaluate(ctx, cases)
-    bad += eval_dv(ctx, [c for c in corpus if c.get('kind') == 'dv'] +
-                   [gen_dv(ctx.rng) for _ in range(ctx.q(60, 1500))])
+    bad += eval_dv(ctx, [c for c in corpus if c.get('kind') in ('dv', 'ks')] +
+                   [gen_dv(ctx.rng) for _ in range(ctx.q(60, 1500))] +
+                   [gen_ks(ctx.rng) for _ in range(ctx.q(60, 1500))])
     if not build['build_ok'] and not any(True for c, w in bad):
         more = [gen_single(ctx.rng) for _ in range(5 * n_single)] + [gen_concat(ctx.rng) for _ in range(3 * n_concat)]
         bad += evaluate(ctx, more)
@@ -1421,7 +1548,7 @@ def run(ctx):
 def replay(ctx, rep):
     register(ctx)
     build = common.build_and_audit('C12', 'quick')
-    if rep['case'].get('kind') == 'dv':
+    if rep['case'].get('kind') in ('dv', 'ks'):
         for c, w in eval_dv(ctx, [rep['case']]):
             ctx.violation(c, w)
         return common.finish(ctx, build, RULE, CHECKER, TRUSTED)
